@@ -1,5 +1,6 @@
 (* C03 -- the audit verdict is exact and load enforces exactly that verdict. *)
-From Skv Require Import PyStr Json Node GetTree Unsafe UnsafeFacts AuditFacts.
+From Skv Require Import PyStr Json Node GetTree Unsafe UnsafeFacts AuditFacts SortFacts.
+From Coq Require Import Sorted.
 From Gen Require Import Snapshot.
 
 (* Every archive, every fuel/path, every T: auditing with T = auditing without, minus T
@@ -93,6 +94,16 @@ Print Assumptions C03_true_rejected.
 Theorem C03_report_elements : forall y l, In y (sort_dedup l) <-> In y l.
 Proof. exact sort_dedup_In. Qed.
 Print Assumptions C03_report_elements.
+
+(* ... and it is strictly increasing in Python's string order: sorted and duplicate-free *)
+Theorem C03_report_canonical :
+  forall E schema G, get_untrusted_types E schema = Ok G -> StronglySorted plt G /\ NoDup G.
+Proof.
+  intros E schema G. unfold get_untrusted_types. destruct (root_tree E schema) as [[t m]|]; cbn [bind]; [|discriminate].
+  unfold untrusted_of. destruct (unsafe E None t t); cbn [bind]; [|discriminate].
+  intros X; injection X as <-. split; [apply sort_dedup_sorted | apply sort_dedup_nodup].
+Qed.
+Print Assumptions C03_report_canonical.
 
 (* non-vacuity: a two-node archive naming an untrusted function *)
 Definition ex_env : env :=
